@@ -3,6 +3,7 @@ package main
 // Assumed contracts of external functions (the trusted table, DESIGN Appendix B).
 
 import (
+	"strings"
 	"fmt"
 	"go/types"
 
@@ -125,6 +126,37 @@ func init() {
 		"github.com/google/uuid.NewRandom": func(fr *Frame, st *State, a []Val, in ssa.Instruction) Val {
 			sig := in.(ssa.CallInstruction).Common().Signature()
 			return Val{Tup: fr.freshResults(sig, "uuid")}
+		},
+		// sort.Search(n, f): what binary search guarantees for ANY predicate: 0 <= r <= n, f(r) if r < n, !f(r-1) if r > 0
+		// (with a monotone predicate that makes r the smallest index where f holds). The predicate is the real closure,
+		// evaluated symbolically at r and r-1; it must not write to the heap.
+		"sort.Search": func(fr *Frame, st *State, a []Val, in ssa.Instruction) Val {
+			u := fr.u
+			f := a[1]
+			if f.Fn == nil {
+				u.unsup("sort.Search with a predicate that is not a function literal")
+			}
+			n := a[0].T
+			r := u.enc.freshConst("search", "Int")
+			u.assumeG(st, and(app("<=", "0", r), app("<=", r, n)))
+			for _, c := range []struct{ guard, arg string; neg bool }{{app("<", r, n), r, false}, {app(">", r, "0"), app("-", r, "1"), true}} {
+				st1 := st.clone()
+				st1.guard = and(st.guard, c.guard)
+				before := st1.clone()
+				v := fr.inline(st1, f.Fn, []Val{intV(c.arg)}, f.Bind, in.Pos())
+				for k, h := range st1.heaps {
+					if before.heaps[k] != h && !strings.HasPrefix(k, "L$") && !strings.HasPrefix(k, "$") {
+						u.unsup("sort.Search predicate writes to heap %s", k)
+					}
+				}
+				if c.neg {
+					u.assumeG(st1, not(v.T))
+				} else {
+					u.assumeG(st1, v.T)
+				}
+			}
+			u.note("sort.Search: assumed contract of the library: returns r in [0,n] with f(r) (if r<n) and !f(r-1) (if r>0); termination/complexity not modelled")
+			return intV(r)
 		},
 		"sort.Stable":         sortPerm,
 		"sort.Sort":           sortPerm,
